@@ -166,6 +166,45 @@ func groupsUpToOrder(got, want [][]string) bool {
 	return true
 }
 
+// sameKept: the rows left are the model's kept rows. When every input name is distinct: same
+// names, same residues, same order. When rows of the input share a name (possible after a renaming
+// in place) the residues are judged by position; a kept row whose name is already borne by an
+// earlier kept row may have been given another name (the container renames on collision)
+func sameKept(o *pbt.Outcome, input, got, want []gen.Row) bool {
+	if gen.SameRows(got, want) {
+		return true
+	}
+	seen := map[string]bool{}
+	shared := false
+	for _, r := range input {
+		shared = shared || seen[r.Name]
+		seen[r.Name] = true
+	}
+	if !shared || len(got) != len(want) {
+		return false
+	}
+	used := map[string]bool{}
+	renamed := false
+	for i := range want {
+		if got[i].Seq != want[i].Seq {
+			return false
+		}
+		switch {
+		case got[i].Name == want[i].Name && !used[got[i].Name]:
+		case used[want[i].Name] && !used[got[i].Name] && strings.HasPrefix(got[i].Name, want[i].Name):
+			renamed = true
+		default:
+			return false
+		}
+		used[got[i].Name] = true
+	}
+	if renamed {
+		o.Ambiguous++
+		o.Class("kept-row-renamed-on-name-collision(accepted)")
+	}
+	return true
+}
+
 // judgeDedup compares an observed result (rows left in the container, groups) with the model under
 // each admitted reading of the wildcard
 func judgeDedup(o *pbt.Outcome, rows []gen.Row, wilds []string, gotRows []gen.Row, gotGroups [][]string) error {
@@ -178,7 +217,7 @@ func judgeDedup(o *pbt.Outcome, rows []gen.Row, wilds []string, gotRows []gen.Ro
 	for ri, m := range readings {
 		var err error
 		switch {
-		case !gen.SameRows(gotRows, m.kept):
+		case !sameKept(o, rows, gotRows, m.kept):
 			err = fmt.Errorf("rows kept: %s\n want (first occurrence of each distinct sequence, original order): %s", gen.Show(gotRows), gen.Show(m.kept))
 		case gotGroups == nil: // only the rows are observable
 		case sameGroups(gotGroups, m.groups):
@@ -227,6 +266,9 @@ type dedupCase struct {
 	Big *bigRows `json:"big,omitempty"`
 	// Plan: the alignment is obtained through this chain of public operations (gen.BuildVia)
 	Plan *gen.Plan `json:"plan,omitempty"`
+	// ViaRename: the names of Ali.Rows (some of them borne by several rows) are given by an in-place
+	// Rename of a container built with the unique names t0, t1, ...
+	ViaRename bool `json:"viarename,omitempty"`
 }
 
 // manyDistinct: N pairwise distinct strings of length L over Chars (string k spells k in base
@@ -466,11 +508,13 @@ func oddNames(t *rapid.T, rows []gen.Row, leading bool) {
 	for k := rapid.IntRange(1, 3).Draw(t, "nodd"); k > 0; k-- {
 		i := rapid.IntRange(0, len(rows)-1).Draw(t, "oddrow")
 		base := rows[rapid.IntRange(0, len(rows)-1).Draw(t, "oddof")].Name
-		v := rapid.IntRange(0, 4).Draw(t, "oddkind")
+		v := rapid.IntRange(0, 13).Draw(t, "oddkind")
 		if !leading && v == 1 {
 			v = 0
 		}
-		name := []string{base + " ", " " + base, strings.ToUpper(strings.TrimSpace(base)), base + "  ", strings.TrimSpace(base) + " "}[v]
+		// 5..13: characters that matter to printf-style, shell-style and escape handling
+		name := []string{base + " ", " " + base, strings.ToUpper(strings.TrimSpace(base)), base + "  ", strings.TrimSpace(base) + " ",
+			base + "%2F1", "95%" + base, base + "%", base + "\\", "$" + base, base + "{}", base + "*?", "~" + base, base + "%d%s\\n"}[v]
 		clash := false
 		for j := range rows {
 			clash = clash || (j != i && rows[j].Name == name)
@@ -483,7 +527,7 @@ func oddNames(t *rapid.T, rows []gen.Row, leading bool) {
 
 func hasOddNames(rows []gen.Row) bool {
 	for _, r := range rows {
-		if strings.TrimSpace(r.Name) != r.Name || strings.ToLower(r.Name) != r.Name {
+		if strings.TrimSpace(r.Name) != r.Name || strings.ToLower(r.Name) != r.Name || strings.ContainsAny(r.Name, "%\\${}*?~") {
 			return true
 		}
 	}
@@ -511,6 +555,16 @@ func genDedup(t *rapid.T) dedupCase {
 	}
 	c.Ali.Rows = genRows(t, c.Ali.Alphabet, c.Bag, 10, 12)
 	oddNames(t, c.Ali.Rows, true)
+	if len(c.Ali.Rows) >= 2 && rapid.IntRange(0, 7).Draw(t, "sharednames") == 0 {
+		// names edited in place (a many-to-one Rename): several rows bear the same name
+		for k := rapid.IntRange(1, 3).Draw(t, "nshared"); k > 0; k-- {
+			i := rapid.IntRange(0, len(c.Ali.Rows)-1).Draw(t, "sharedrow")
+			c.Ali.Rows[i].Name = c.Ali.Rows[rapid.IntRange(0, len(c.Ali.Rows)-1).Draw(t, "sharedwith")].Name
+		}
+		c.ViaRename = true
+		c.Mode = rapid.SampledFrom([]string{"", "", "unknown", "auto"}).Draw(t, "mode")
+		return c
+	}
 	if !c.Bag && rapid.Bool().Draw(t, "provenance") {
 		// an alignment (of the alphabet its rows were drawn from) that was cloned, renamed, cut,
 		// cleaned, concatenated, re-parsed ... before
@@ -536,6 +590,19 @@ var lastProvenance string
 
 func buildBag(c dedupCase) align.SeqBag {
 	lastProvenance = ""
+	if c.ViaRename {
+		tmp := c
+		tmp.ViaRename, tmp.Plan = false, nil
+		tmp.Ali.Rows = append([]gen.Row{}, c.Ali.Rows...)
+		names := map[string]string{}
+		for i := range tmp.Ali.Rows {
+			tmp.Ali.Rows[i].Name = fmt.Sprintf("t%d", i)
+			names[tmp.Ali.Rows[i].Name] = c.Ali.Rows[i].Name
+		}
+		sb := buildBag(tmp)
+		sb.Rename(names)
+		return sb
+	}
 	if c.Plan != nil && !c.Bag && (c.mode() == "nt" || c.mode() == "aa") {
 		a := c.Ali
 		a.Alphabet = c.mode()
@@ -675,11 +742,24 @@ func checkDedup(c dedupCase) (o pbt.Outcome, err error) {
 	for _, r := range got {
 		keptNames[r.Name] = r.Seq
 	}
+	nameCount := map[string]int{}
 	for _, r := range rows {
+		nameCount[r.Name]++
+	}
+	sharedNames := len(nameCount) < len(rows)
+	for _, r := range rows {
+		if sharedNames {
+			break // which row a name designates after a collision is not this property's business
+		}
 		s, ok := sb.GetSequence(r.Name)
 		want, kept := keptNames[r.Name]
 		if ok != kept || (kept && s != want) {
 			return o, fmt.Errorf("GetSequence(%q) = %q,%v after de-duplication; kept=%v", r.Name, s, ok, kept)
+		}
+	}
+	for _, r := range got { // every row left is reachable under the name it now bears
+		if s, ok := sb.GetSequence(r.Name); !ok || s != r.Seq {
+			return o, fmt.Errorf("GetSequence(%q) = %q,%v after de-duplication, the row read by index holds %q", r.Name, s, ok, r.Seq)
 		}
 	}
 	if al, ok := sb.(align.Alignment); ok && al.Length() != len(rows[0].Seq) {
@@ -723,6 +803,22 @@ func checkDedup(c dedupCase) (o pbt.Outcome, err error) {
 	}
 	if hasOddNames(rows) {
 		o.Class("names-with-blanks-or-upper-case,bag=%v", c.Bag)
+	}
+	if sharedNames {
+		o.Class("rows-sharing-a-name(after Rename),bag=%v", c.Bag)
+		bySeq := map[string]map[string]bool{}
+		for _, r := range rows {
+			if bySeq[r.Name] == nil {
+				bySeq[r.Name] = map[string]bool{}
+			}
+			bySeq[r.Name][r.Seq] = true
+		}
+		for _, m := range bySeq {
+			if len(m) > 1 {
+				o.Class("different-sequences-sharing-a-name")
+				break
+			}
+		}
 	}
 	if len(readDistinct(rows)) > 100 {
 		o.Class("large:distinct rows>100")
